@@ -62,3 +62,9 @@ package keyvalue
 //@   safety_off
 //@   modifies *
 //@   assert at "return db.Put(ctx, tk, serialization)": len(serialization) > 0
+
+// ServeHTTP (C11, C20), structural contract: no variable of the request dispatcher is written by a
+// goroutine it starts and also used by the dispatcher afterwards (see neuronjson.Data.ServeHTTP).
+//@ func Data.ServeHTTP
+//@   prop C11 C20
+//@   structural
